@@ -39,6 +39,11 @@ for k in sorted(res):
     print(k, res[k]['status'], ','.join(res[k].get('rules', [])) or res[k].get('why', ''))
 if not only:
     json.dump(res, open('/verif/seeded/RESULTS.json', 'w'), indent=1)
+elif os.environ.get('TU_MERGE_RESULTS'):
+    # partial run (only the named seeds / properties): merge into the stored matrix
+    old = json.load(open('/verif/seeded/RESULTS.json'))
+    old.update(res)
+    json.dump(old, open('/verif/seeded/RESULTS.json', 'w'), indent=1, sort_keys=True)
 miss = [k for k, v in res.items() if v['status'] == 'MISSED']
 print('detected %d / %d, missed: %s' % (sum(1 for v in res.values() if v['status'] == 'detected'), len(res), miss))
 sys.exit(1 if miss else 0)
